@@ -1,6 +1,7 @@
 import Momo.Proof.PoolHist
 import Momo.Proof.PoolSingle
 import Momo.Proof.PoolDll
+import Momo.Proof.TrEqPool
 /-!
 # C09 — Memory pool blocks are aligned, disjoint, inside owned memory, and all returned
 
@@ -286,6 +287,179 @@ theorem C09_list_ops_dll (h : Heap) :
    fun l1 l2 b hdll => ptrUnlink_split h l1 l2 b hdll,
    fun L hd nb hdll hnb => ptrAppend_refines h L hd nb hdll hnb⟩
 
+/-! ## the layout theorems about the functions translated from MemPool.h (`Momo.Tr.pool_*`) -/
+
+/-- **C09 (layout, `recover`, translated code).** `Tr.pool_pvGetBlock` / `Tr.pool_pvGetBlockIndex` are regenerated from
+the bodies of `MemPool::pvGetBlock` / `pvGetBlockIndex` on every check (64-bit words, `ptrdiff_t` in two's complement).
+For every legal pool with several blocks per buffer, every buffer pointer of the shape `pvNewBuffer` produces and every
+index `-N ≤ i < N`, with all `2N` block positions 64-bit addresses below `2^63`: `pvGetBlockIndex(pvGetBlock(buffer, i))`
+returns the index `i` and the buffer. -/
+theorem C09_recover_translated (S A N C : Nat) (hL : (Params.mk S A N C).Legal) (hN2 : 2 ≤ N) (buf : Nat) (i : Int)
+    (hb : BufOK ⟨S, A, N, C⟩ buf) (hi : -(N : Int) ≤ i) (hi2 : i < N)
+    (hlo : (N : Int) * S ≤ buf) (hhi : (buf : Int) + N * S + A < 2 ^ 63) :
+    Tr.pool_pvGetBlockIndex S A N (Tr.pool_pvGetBlock S A buf i) = (i, buf) := by
+  have hp := TrEq.isParams_mk S A N C
+  generalize Params.mk S A N C = P at hL hb hp
+  have hN2' : 2 ≤ P.N := by rw [hp.hN]; omega
+  obtain ⟨sA, sA2, sN, sS, sNS, _, _⟩ := TrEq.legal_sizes hL hN2'
+  have hA := hp.hA; have hS := hp.hS; have hN := hp.hN
+  obtain ⟨r1, r2⟩ := C09_recover P hL hN2' buf i hb (by omega) (by omega)
+  have hlo' : -((N : Int) * S) ≤ i * S := by
+    have := Int.mul_le_mul_of_nonneg_right hi (show (0 : Int) ≤ S by omega)
+    rw [Int.neg_mul] at this; exact this
+  have hhi' : i * S ≤ (N : Int) * S := Int.mul_le_mul_of_nonneg_right (by omega) (by omega)
+  have hg : getBlock P buf i = buf + i * S + (if 0 ≤ i then (A : Int) else 0) := by
+    unfold getBlock; rw [hS, hA]
+  simp only [hS, hA, hN] at sA sA2 sN sS sNS
+  have e := TrEq.tr_getBlock_of_inside P S A N hp buf i (by omega) hi (by omega) (by omega) (by omega)
+    (by rw [hg]; split <;> omega) (by rw [hg]; split <;> omega)
+  rw [← e] at r1 r2
+  have hbk : ((Tr.pool_pvGetBlock S A buf i : Nat) : Int) < 2 ^ 63 := by rw [e, hg]; split <;> omega
+  generalize Tr.pool_pvGetBlock S A buf i = blk at r1 r2 hbk
+  obtain ⟨g1, g2⟩ := TrEq.tr_getBlockIndex P S A N hp blk (by omega) (by omega) (by omega) (by omega) (by omega)
+    (by rw [r1, hp.hS]; omega) (by rw [r1, hp.hS]; omega) (by rw [r2]; omega) (by rw [r2]; omega)
+  rw [r1] at g1; rw [r2] at g2
+  exact Prod.ext g1 (by exact_mod_cast g2)
+
+/-- **C09 (layout, `newBuffer_ok`, translated code).** `Tr.pool_pvNewBuffer` is regenerated from the body of
+`MemPool::pvNewBuffer` up to its first write into the buffer (`begin` = the address the memory manager returned; result
+`(beginOffset, block, buffer, blockIndex)`). For every legal pool with several blocks per buffer and EVERY address `base`
+with `base + pvGetBufferSize() < 2^63`: the buffer pointer satisfies `BufOK`, the first block index lies in `(-N, 0]`
+(it fits `int8_t` and differs from the terminator `-128`), `pvGetBlock(buffer, blockIndex)` is the block the steps
+computed, that block is `A`-aligned, does not lie below `base`, and `block = base + beginOffset`. -/
+theorem C09_newBuffer_ok_translated (S A N C : Nat) (hL : (Params.mk S A N C).Legal) (hN2 : 2 ≤ N) (base : Nat)
+    (hfit : (base : Int) + (Params.mk S A N C).bufferSize < 2 ^ 63) :
+    BufOK ⟨S, A, N, C⟩ (Tr.pool_pvNewBuffer S A N base).2.2.1 ∧
+    -(N : Int) < (Tr.pool_pvNewBuffer S A N base).2.2.2 ∧ (Tr.pool_pvNewBuffer S A N base).2.2.2 ≤ 0 ∧
+    -(Extracted.poolFreeTerminator : Int) < (Tr.pool_pvNewBuffer S A N base).2.2.2 ∧
+    Tr.pool_pvGetBlock S A (Tr.pool_pvNewBuffer S A N base).2.2.1 (Tr.pool_pvNewBuffer S A N base).2.2.2 =
+      (Tr.pool_pvNewBuffer S A N base).2.1 ∧
+    (Tr.pool_pvNewBuffer S A N base).2.1 % A = 0 ∧ base ≤ (Tr.pool_pvNewBuffer S A N base).2.1 ∧
+    (Tr.pool_pvNewBuffer S A N base).2.1 = base + (Tr.pool_pvNewBuffer S A N base).1 := by
+  obtain ⟨e1, e2, e3, e4, _, e6⟩ := TrEq.tr_newBuffer_legal S A N C hL hN2 base hfit
+  have hp := TrEq.isParams_mk S A N C
+  generalize Params.mk S A N C = P at hL hp hfit e1 e2 e3 e4 e6 ⊢
+  have hA := hp.hA; have hS := hp.hS; have hN := hp.hN
+  have hN2' : 2 ≤ P.N := by rw [hN]; omega
+  obtain ⟨sA, sA2, sN, sS, sNS, _, sB⟩ := TrEq.legal_sizes hL hN2'
+  simp only [hS, hA, hN] at sA sA2 sN sS sNS sB
+  obtain ⟨h1, h2, h3, h4, h5, h6, h7⟩ := C09_newBuffer_ok P hL hN2' base
+  have e1' : (newBuffer P base).beginOffset = firstBlock P base - base := rfl
+  rw [← e3] at h1 h5; rw [← e4] at h2 h3 h4 h5; rw [← e2] at h5 h6 h7 e6 e1'; rw [← e1] at e1'
+  rw [hN] at h2; rw [hA] at h6
+  generalize (Tr.pool_pvNewBuffer S A N base).1 = off at e1'
+  generalize (Tr.pool_pvNewBuffer S A N base).2.1 = blk at h5 h6 h7 e6 e1'
+  generalize (Tr.pool_pvNewBuffer S A N base).2.2.1 = buf at h1 h5
+  generalize (Tr.pool_pvNewBuffer S A N base).2.2.2 = first at h2 h3 h4 h5
+  have hg := TrEq.tr_getBlock_of_inside P S A N hp buf first (by omega) (by omega) (by omega) (by omega) (by omega)
+    (by rw [h5]; omega) (by rw [h5]; omega)
+  rw [h5] at hg
+  refine ⟨h1, h2, h3, h4, by exact_mod_cast hg, by exact_mod_cast h6, by omega, by omega⟩
+
+/-- **C09 (layout, blocks aligned / pairwise disjoint / inside / disjoint from metadata, translated code).** Everything
+below is computed by functions regenerated from MemPool.h: the buffer pointer and first index by `Tr.pool_pvNewBuffer`,
+the blocks by `Tr.pool_pvGetBlock`, the size of the memory by `Tr.pool_pvGetBufferSize`, the positions of the metadata
+(`TrEq.metaRangesTr`) by `Tr.pool_pvGetBufferBytesPosition / …PrevBufferPosition / …NextBufferPosition /
+…BeginOffsetPosition`. Let the memory manager return `base`, aligned as the pool assumes, `base + pvGetBufferSize() < 2^63`.
+Then every block is `A`-aligned and lies inside `[base, base + pvGetBufferSize())`, two different blocks do not overlap,
+no block overlaps a metadata byte, the metadata fields lie inside that memory and do not overlap one another, the begin
+offset fits its `uint16_t` and leads from the first block back to `base`. -/
+theorem C09_blocks_disjoint_inside_translated (S A N C : Nat) (hL : (Params.mk S A N C).Legal) (hN2 : 2 ≤ N) (base : Nat)
+    (hbase : (Params.mk S A N C).allocAlign ∣ base) (hfit : (base : Int) + (Params.mk S A N C).bufferSize < 2 ^ 63) :
+    let buf := (Tr.pool_pvNewBuffer S A N base).2.2.1
+    let first := (Tr.pool_pvNewBuffer S A N base).2.2.2
+    let size : Int := (Tr.pool_pvGetBufferSize S A N : Nat)
+    let blk := fun (i : Int) => ((Tr.pool_pvGetBlock S A buf i : Nat) : Int)
+    let metaR := TrEq.metaRangesTr S A N buf first
+    (∀ i, first ≤ i → i < first + N →
+        blk i % A = 0 ∧ Inside (blk i) S base (base + size) ∧
+        (∀ j, first ≤ j → j < first + N → i ≠ j → Disj (blk i) S (blk j) S) ∧
+        (∀ r ∈ metaR, Disj (blk i) S r.1 r.2)) ∧
+    (∀ r ∈ metaR, Inside r.1 r.2 base (base + size)) ∧
+    metaR.Pairwise (fun r s => Disj r.1 r.2 s.1 s.2) ∧
+    (Tr.pool_pvNewBuffer S A N base).1 < 2 ^ Extracted.poolBeginOffsetLog ∧
+    blk first - ((Tr.pool_pvNewBuffer S A N base).1 : Nat) = base := by
+  obtain ⟨e1, _, e3, e4, e5, _⟩ := TrEq.tr_newBuffer_legal S A N C hL hN2 base hfit
+  have hp := TrEq.isParams_mk S A N C
+  generalize Params.mk S A N C = P at hL hp hfit hbase e1 e3 e4 e5 ⊢
+  have hA := hp.hA; have hS := hp.hS; have hN := hp.hN
+  have hN2' : 2 ≤ P.N := by rw [hN]; omega
+  obtain ⟨sA, sA2, sN, sS, sNS, _, sB⟩ := TrEq.legal_sizes hL hN2'
+  simp only [hS, hA, hN] at sA sA2 sN sS sNS sB
+  obtain ⟨_, f2, f3, _⟩ := C09_newBuffer_ok P hL hN2' base
+  obtain ⟨H1, H2, H3, H4, H5, H6⟩ := C09_blocks_disjoint_inside P hL hN2' base hbase
+  rw [← e3, ← e4] at H1 H2 H3 H6; rw [← e4] at f2 f3; rw [← e1] at H4 H5 H6; rw [← e5] at H1 H2; rw [hS] at H1
+  rw [hA, hN] at H1; rw [hN] at f2
+  generalize (Tr.pool_pvNewBuffer S A N base).1 = off at H4 H5 H6 ⊢
+  generalize (Tr.pool_pvNewBuffer S A N base).2.2.1 = buf at H1 H2 H3 H6 ⊢
+  generalize (Tr.pool_pvNewBuffer S A N base).2.2.2 = first at H1 H2 H3 H6 f2 f3 ⊢
+  generalize Tr.pool_pvGetBufferSize S A N = size at H1 H2 e5 ⊢
+  dsimp only
+  have hmeta : TrEq.metaRangesTr S A N buf first = metaRanges P buf first := by
+    apply TrEq.metaRangesTr_eq P S A N hp buf first (by omega) (by omega) (by rw [hN]; omega) f3
+    have := (H2 (beginOffPos P buf first, sizeofU16) (by unfold metaRanges; exact List.mem_cons_of_mem _ (List.mem_cons_of_mem _ (List.mem_cons_of_mem _ (List.mem_cons_of_mem _ List.mem_cons_self))))).2
+    simp only [metaEnd]; omega
+  have hblk : ∀ i, first ≤ i → i < first + N → ((Tr.pool_pvGetBlock S A buf i : Nat) : Int) = getBlock P buf i := by
+    intro i hi hi2
+    obtain ⟨_, ⟨a1, a2⟩, _⟩ := H1 i hi hi2
+    exact TrEq.tr_getBlock_of_inside P S A N hp buf i (by omega) (by omega) (by omega) (by omega) (by omega)
+      (by omega) (by omega)
+  rw [hmeta]
+  refine ⟨fun i hi hi2 => ?_, H2, H3, by exact_mod_cast H5, by rw [hblk first (by omega) (by omega)]; exact H6⟩
+  obtain ⟨a1, a2, a3, a4⟩ := H1 i hi hi2
+  rw [hblk i hi hi2]
+  exact ⟨a1, a2, fun j hj hj2 hij => by rw [hblk j hj hj2]; exact a3 j hj hj2 hij, a4⟩
+
+/-- **C09 (layout, single-block form, translated code).** `blockCount == 1`: `Tr.pool_pvNewBlock1` (the body of
+`pvNewBlock1` up to the write of the offset bytes; result `(block, offset)`), `Tr.pool_pvGetBufferSize1`,
+`Tr.pool_pvGetBufferSize0`, `Tr.pool_pvGetAlignmentAddend` as regenerated from MemPool.h: the block is aligned, block and
+offset bytes lie inside `[base, base + pvGetBufferSize1())`, the offset is below 65536 and leads back to `base`; with a
+zero alignment addend the manager's address itself is aligned and the block fits `pvGetBufferSize0()`. -/
+theorem C09_single_block_ok_translated (S A N C : Nat) (hL : (Params.mk S A N C).Legal) (base : Nat)
+    (hbase : (Params.mk S A N C).allocAlign ∣ base) (hfit : (base : Int) + (Params.mk S A N C).bufferSize1 < 2 ^ 63) :
+    let blk : Int := ((Tr.pool_pvNewBlock1 A base).1 : Nat)
+    let off : Int := ((Tr.pool_pvNewBlock1 A base).2 : Nat)
+    blk % A = 0 ∧ Inside blk (S + sizeofU16) base (base + (Tr.pool_pvGetBufferSize1 S A : Nat)) ∧
+    off < (Extracted.poolOffsetLimit1 : Int) ∧ blk - off = base ∧
+    (Tr.pool_pvGetAlignmentAddend A = 0 →
+      (base : Int) % A = 0 ∧ Inside base S base (base + (Tr.pool_pvGetBufferSize0 S A : Nat))) := by
+  have hp := TrEq.isParams_mk S A N C
+  generalize Params.mk S A N C = P at hL hp hfit hbase ⊢
+  have hA := hp.hA; have hS := hp.hS
+  have sA : 0 < P.A := hL.2.2.1
+  have sA2 : P.A ≤ 1024 := hL.2.2.2.1
+  have sS : 0 < P.S := hL.2.2.2.2.1
+  obtain ⟨g0, g1, g2⟩ := allocAlign_spec P sA sA2
+  have had : P.alignAddend = P.A - P.allocAlign := rfl
+  have hb1 : P.bufferSize1 = P.S + P.alignAddend + 2 := rfl
+  obtain ⟨n1, n2⟩ := TrEq.tr_newBlock1 P A hA base (by omega) (by omega)
+  have s1 := TrEq.tr_bufferSize1 P S A hS hA (by omega) (by omega) (by omega)
+  have s0 := TrEq.tr_bufferSize0 P S A hS hA
+  have sa := TrEq.tr_alignAddend P A hA (by omega) (by omega)
+  obtain ⟨h1, h2, _, h4, h5, h6⟩ := C09_single_block_ok P hL base hbase
+  intro blk off
+  rw [← n1] at h1 h2 h5; rw [← n2] at h4 h5; rw [← s1, hS] at h2; rw [hA] at h1
+  refine ⟨h1, h2, h4, h5, fun h0 => ?_⟩
+  have := h6 (by rw [← sa, h0]; rfl)
+  rw [← s0, hS, hA] at this
+  exact this
+
+/-- **C09 (parameters the models take as given, translated code).** The quantities the state-machine model and the
+parameter model read from the header, as regenerated from MemPool.h, are the model's: `pvUseCache` (whether `Allocate` /
+`Deallocate` go through the cache), `pvGetAlignmentAddend` (`Allocate` with `blockCount == 1` branches on `== 0`),
+`pvGetBufferSize0`, `pvIsBufferBytesNear`, `MemPoolConst::CorrectBlockSize` and `MemPoolConst::GetBlockAlignment` (the
+block size / default alignment `MemPoolParams` derives from the requested size). -/
+theorem C09_params_translated (S A N C : Nat) (hA0 : 0 < A) (hfit : S + A < 2 ^ 63) (m : Nat) (hm : m < 2 ^ 64) :
+    Tr.pool_pvUseCache C S = (Params.mk S A N C).useCache ∧
+    ((Tr.pool_pvGetAlignmentAddend A : Nat) : Int) = (Params.mk S A N C).alignAddend ∧
+    ((Tr.pool_pvGetBufferSize0 S A : Nat) : Int) = (Params.mk S A N C).bufferSize0 ∧
+    Tr.pool_pvIsBufferBytesNear A = (Params.mk S A N C).bytesNear ∧
+    ((Tr.pool_CorrectBlockSize S A N : Nat) : Int) = correctBlockSize S A N ∧
+    ((Tr.pool_GetBlockAlignment S m : Nat) : Int) = getBlockAlignment S 64 m :=
+  ⟨TrEq.tr_useCache ⟨S, A, N, C⟩ S rfl, TrEq.tr_alignAddend ⟨S, A, N, C⟩ A rfl hA0 (by omega),
+   TrEq.tr_bufferSize0 ⟨S, A, N, C⟩ S A rfl rfl, TrEq.tr_bytesNear ⟨S, A, N, C⟩ A rfl,
+   TrEq.tr_correctBlockSize S A N hA0 (by omega) (by omega), TrEq.tr_getBlockAlignment S m hm⟩
+
 /-! ## non-vacuity: concrete states meeting the hypotheses -/
 
 /-- a legal configuration with the cache on: block size 16, alignment 8, 3 blocks per buffer, 1 cached block -/
@@ -298,6 +472,15 @@ example : (⟨64, 512, 1, 0⟩ : Params).Legal ∧ (⟨64, 512, 1, 0⟩ : Params
 /-- a buffer at base 1000000: first block index -2, buffer pointer 1000032, begin offset 0 -/
 example : newBuffer exP 1000000 = ⟨1000032, -2, 0⟩ := by decide
 example : newBuffer exP 1000005 = ⟨1000032, -1, 11⟩ := by decide
+/-- the translated functions on the same configuration (machine words): `pvNewBuffer` at base 1000000 / 1000005, the
+    round trip of `pvGetBlock` / `pvGetBlockIndex`, the sizes; the hypotheses of the `_translated` theorems hold -/
+example : Tr.pool_pvNewBuffer 16 8 3 1000000 = (0, 1000000, 1000032, -2) := by decide
+example : Tr.pool_pvNewBuffer 16 8 3 1000005 = (11, 1000016, 1000032, -1) := by decide
+example : Tr.pool_pvGetBlockIndex 16 8 3 (Tr.pool_pvGetBlock 16 8 1000032 (-2)) = (-2, 1000032) := by decide
+example : Tr.pool_pvGetBlockIndex 16 8 3 (Tr.pool_pvGetBlock 16 8 1000032 0) = (0, 1000032) := by decide
+example : Tr.pool_pvGetBufferSize 16 8 3 = 82 ∧ Tr.pool_pvGetAlignmentAddend 512 = 496 ∧ Tr.pool_pvNewBlock1 512 16 = (512, 496) := by decide
+example : (Params.mk 16 8 3 1).Legal ∧ ((1000000 : Nat) : Int) + (Params.mk 16 8 3 1).bufferSize < 2 ^ 63 ∧
+    (Params.mk 16 8 3 1).allocAlign ∣ ((1000000 : Nat) : Int) := by decide
 /-- the empty pool is well formed; three allocations need two buffers and leave a well-formed state
     (by `C09_alloc_fresh`), with the head buffer full and moved before the new head -/
 example : PoolWF exP Pool.empty := PoolWF.empty exP
